@@ -103,3 +103,5 @@ pub fn new_lowrank_transform<M: crate::Math>(
     t.update(math, col(stds), col(mean), col(vals), mat, col(mu));
     t
 }
+
+pub use crate::storage::{ChainStorage, StorageConfig, TraceStorage};
